@@ -4,8 +4,9 @@ import RedisGoModel.Driver.Parser
 import RedisGoModel.Driver.Exec
 import RedisGoModel.Driver.Serve
 import RedisGoModel.Driver.Apply
+import RedisGoModel.Driver.Wal
 /-! Correspondence driver: reads one observed operation per line on stdin, recomputes it with the model, prints
-    `MISMATCH <lineno> <detail>` for every disagreement and a final `SUMMARY` line. -/
+    `MISMATCH <lineno> <detail>` for every disagreement and a final `SUMMARY` line.  Each engine recognises its own line tags. -/
 open Driver
 
 structure St where
@@ -16,6 +17,23 @@ structure St where
   ex : ExecSt := {}
   sv : ServeSt := {}
   ap : ApplySt := {}
+  wal : WalSt := {}
+
+/-- try the engines in turn; the first that recognises the line judges it -/
+def judge (st : St) (fs : List String) : St × Option (Except String Bool) :=
+  let (ex', v) := execLine st.ex fs
+  let st := { st with ex := ex' }
+  if v.isSome then (st, v) else
+  let (sv', v) := serveLine st.sv fs
+  let st := { st with sv := sv' }
+  if v.isSome then (st, v) else
+  let (ap', v) := applyLine st.ap fs
+  let st := { st with ap := ap' }
+  if v.isSome then (st, v) else
+  let (wal', v) := walLine st.wal fs
+  let st := { st with wal := wal' }
+  if v.isSome then (st, v) else
+  (st, (globLine fs).orElse fun _ => parserLine fs)
 
 partial def loop (h : IO.FS.Stream) (st : St) : IO St := do
   let line ← h.getLine
@@ -24,13 +42,8 @@ partial def loop (h : IO.FS.Stream) (st : St) : IO St := do
   let fs := fields line
   if fs.isEmpty then loop h st else
   let n := st.n + 1
-  let (ex', exv) := execLine st.ex fs
-  let st := { st with ex := ex' }
-  let (sv', svv) := if exv.isNone then serveLine st.sv fs else (st.sv, none)
-  let st := { st with sv := sv' }
-  let (ap', apv) := if exv.isNone && svv.isNone then applyLine st.ap fs else (st.ap, none)
-  let st := { st with ap := ap' }
-  match (((exv.orElse fun _ => svv).orElse fun _ => apv).orElse fun _ => globLine fs).orElse (fun _ => parserLine fs) with
+  let (st, verdict) := judge st fs
+  match verdict with
   | some (.ok b) => loop h { st with n := n, pos := st.pos + (if b then 1 else 0) }
   | some (.error e) =>
     IO.println s!"MISMATCH {n} {e} :: {line}"
